@@ -215,7 +215,7 @@ fn cfg(tier: Tier) -> ProgCfg {
             damage_bucket: 3,
             foreign: 1,
         },
-        wmix: WriteMix { bad_decls: true, meta: true, by_hash: true },
+        wmix: WriteMix { bad_decls: true, meta: true, by_hash: true, rich_matching: false, interfere: false },
         sizes: SizeMix::Normal,
         keys: (1, 5),
         blobs: (1, 4),
